@@ -103,7 +103,9 @@ func (s *gkvp) SerializeValueTo(pc *PrintCtx) {
 		pc.pcAppendByte('}')
 		return
 	}
+	pc.groupDepth++
 	_ = serializeAttrs(pc, slices.Clone(s.items))
+	pc.groupDepth--
 }
 
 func (s Attrs) SerializeValueTo(pc *PrintCtx) {
@@ -114,7 +116,9 @@ func (s Attrs) SerializeValueTo(pc *PrintCtx) {
 	}
 	// serializeAttrs sorts and dedupes in place: work on a copy, the items of a
 	// group may be shared by records being formatted concurrently.
+	pc.groupDepth++
 	_ = serializeAttrs(pc, slices.Clone(s))
+	pc.groupDepth--
 	if pc.jsonMode {
 		pc.firstMember = false
 		pc.pcAppendByte('}')
@@ -227,7 +231,7 @@ func serializeAttrs(pc *PrintCtx, kvps Attrs) (err error) { //nolint:revive
 			pc.pcAppendColon()
 		}
 
-		if key == timestampFieldName && prefix == "" { // the top-level attribute only: a group member named "time" is an ordinary attribute
+		if key == timestampFieldName && prefix == "" && pc.groupDepth == 0 { // the top-level attribute only: a group member named "time" is an ordinary attribute (also in a group whose own key is empty)
 			// we format timestamp in according to the setting in flags
 			if z, ok := v.Value().(time.Time); ok {
 				// if pc.jsonMode || pc.noColor {
